@@ -17,7 +17,10 @@ with
     `shutil.rmtree`, `Path.unlink`, `print`) and from "return" events of `rtf_encode`,
     `LibreOfficeConverter.__init__` and `LibreOfficeConverter.convert`,
   * stub converters (objects defined here, hence not traced as library code) and a real
-    `LibreOfficeConverter` driven by a fake `soffice` shell script.
+    `LibreOfficeConverter` driven by a fake `soffice` shell script whose conversion run is data (`proc_spec`:
+    exit status or signal, what it writes before exiting - full / truncated / empty / misnamed output, resource
+    folder, stray files -, noise); the script logs its conversion runs to S/bin/soffice.log, so that "the
+    conversion failed" is known from the process, independently of what the library reports.
 """
 from __future__ import annotations
 
@@ -140,21 +143,87 @@ class StubConverter:
 
 
 FAKE_SOFFICE = r"""#!/bin/sh
+# fake LibreOffice, driven through the REAL rtflite.convert.LibreOfficeConverter.  The version probe behaves
+# normally; what a conversion run does is given by the environment (see `proc_spec`):
+#   C18_SO_OUT   none | full | trunc (first C18_SO_N bytes) | empty | part (<stem>.<fmt>.part) | sub (nested_out/<stem>.<fmt>)
+#   C18_SO_RES   1: also the resource folder <stem>.<fmt>_files      C18_SO_EXTRA 1: lock file, .tmp sibling, cache dir
+#   C18_SO_NOISE small | big (100 kB on stdout and on stderr)
+#   C18_SO_EXIT  exit status, or KILL / TERM / HUP (the process kills itself with that signal) - AFTER the writes
 if [ "$1" = "--version" ]; then echo "LibreOffice 24.8.3.2 0bdf1299c94fe897b119f97f3c613e9dca6be583"; exit 0; fi
-# --invisible --headless --nologo --convert-to FMT --outdir DIR INPUT
-fmt="$5"; out="$7"; inp="$8"
-case "$C18_SOFFICE_MODE" in
-  fail) echo "boom" >&2; exit 3;;
-  noout) exit 0;;
-esac
+fmt=""; out=""; inp=""
+while [ $# -gt 0 ]; do
+  case "$1" in
+    --convert-to) fmt="$2"; shift 2;;
+    --outdir) out="$2"; shift 2;;
+    --*) shift;;
+    *) inp="$1"; shift;;
+  esac
+done
+if [ -n "$C18_SO_LOG" ]; then echo "convert" >> "$C18_SO_LOG"; fi
 base=$(basename "$inp" .rtf)
-{ printf '%s<' "$fmt"; cat "$inp"; printf '>'; } > "$out/$base.$fmt"
-if [ "$C18_SOFFICE_MODE" = "okres" ]; then
-  d="$out/$base.$fmt""_files"
+name="$base.$fmt"
+doc() { printf '%s<' "$fmt"; cat "$inp"; printf '>'; }
+case "$C18_SO_OUT" in
+  full) doc > "$out/$name";;
+  trunc) doc | head -c "$C18_SO_N" > "$out/$name";;
+  empty) : > "$out/$name";;
+  part) doc > "$out/$name.part";;
+  sub) mkdir "$out/nested_out"; doc > "$out/nested_out/$name";;
+esac
+if [ "$C18_SO_RES" = 1 ]; then
+  d="$out/$name""_files"
   mkdir "$d"; printf 'resource' > "$d/r.txt"; mkdir "$d/sub"; printf 'nested' > "$d/sub/s.txt"
 fi
-exit 0
+if [ "$C18_SO_EXTRA" = 1 ]; then
+  printf 'lock' > "$out/.~lock.$name#"; printf 'tmp' > "$out/$name.tmp"
+  mkdir "$out/lu_cache"; printf 'bin' > "$out/lu_cache/x.bin"
+fi
+case "$C18_SO_NOISE" in
+  small) echo "boom" >&2;;
+  big) head -c 100000 /dev/zero | tr '\000' 'x'; head -c 100000 /dev/zero | tr '\000' 'E' >&2;;
+esac
+case "$C18_SO_EXIT" in
+  KILL|TERM|HUP) kill -"$C18_SO_EXIT" $$; sleep 5; exit 99;;
+  *) exit "$C18_SO_EXIT";;
+esac
 """
+
+# behaviours of the fake process, by name:  x<exit>.<out>[.res][.extra][.noisy|.loud]
+#   exit: a status (0, 1, 3, 77, ...) or KILL / TERM / HUP;  out: none full trunc<N> empty part sub
+PROC_PRESETS = {"ok": "x0.full", "okres": "x0.full.res", "fail": "x3.none.noisy", "noout": "x0.none"}
+PROC_SIGNALS = {"KILL": 137, "TERM": 143, "HUP": 129}
+PROC_ENV = ("C18_SO_EXIT", "C18_SO_OUT", "C18_SO_N", "C18_SO_RES", "C18_SO_EXTRA", "C18_SO_NOISE", "C18_SO_LOG")
+
+
+def proc_spec(beh: str) -> dict:
+    """the fake process's behaviour as data: exit (as given to the script), code (exit status as a shell reports
+    it; only zero / non-zero matters), out, n, res, extra, noise"""
+    parts = PROC_PRESETS.get(beh, beh).split(".")
+    if len(parts) < 2 or not parts[0].startswith("x"):
+        raise ValueError(f"not a fake-soffice behaviour: {beh!r}")
+    ex = parts[0][1:]
+    out, n = parts[1], 0
+    if out.startswith("trunc"):
+        out, n = "trunc", int(parts[1][5:])
+    if out not in ("none", "full", "trunc", "empty", "part", "sub"):
+        raise ValueError(f"not a fake-soffice behaviour: {beh!r}")
+    flags = set(parts[2:])
+    if flags - {"res", "extra", "noisy", "loud"}:
+        raise ValueError(f"not a fake-soffice behaviour: {beh!r}")
+    return dict(exit=ex, code=PROC_SIGNALS[ex] if ex in PROC_SIGNALS else int(ex), out=out, n=n,
+                res="res" in flags, extra="extra" in flags,
+                noise="big" if "loud" in flags else ("small" if "noisy" in flags else ""))
+
+
+def proc_failed(sp: dict) -> bool:
+    """the conversion run failed: non-zero exit status (whatever it wrote), or no file <stem>.<fmt>"""
+    return sp["code"] != 0 or sp["out"] in ("none", "part", "sub")
+
+
+def proc_document(sp: dict, ext: str, rtf: bytes):
+    """bytes of <stem>.<fmt> as the fake process leaves it (None: it does not write that file)"""
+    doc = ext.encode() + b"<" + rtf + b">"
+    return {"full": doc, "trunc": doc[:sp["n"]], "empty": b""}.get(sp["out"])
 
 
 def install_fake_soffice(S: Path) -> Path:
@@ -540,7 +609,9 @@ def run_export(case: dict) -> dict:
     fn = case["fn"]
     S = Path(tempfile.mkdtemp(prefix="c18_"))
     saved_tempdir = tempfile.tempdir
-    saved_env = {k: os.environ.get(k) for k in ("PATH", "C18_SOFFICE_MODE", "HOME")}
+    saved_env = {k: os.environ.get(k) for k in ("PATH", "HOME") + PROC_ENV}
+    proc = None        # behaviour of the fake soffice process (real / path converters)
+    proc_log = None
     saved_cwd = os.getcwd()
     out: dict = {}
     try:
@@ -564,7 +635,11 @@ def run_export(case: dict) -> dict:
                 kwargs["converter"] = stub
             elif mode in ("real", "path"):
                 exe = install_fake_soffice(S)
-                os.environ["C18_SOFFICE_MODE"] = conv["beh"]
+                proc = proc_spec(conv["beh"])
+                proc_log = S / "bin" / "soffice.log"
+                os.environ.update(C18_SO_EXIT=proc["exit"], C18_SO_OUT=proc["out"], C18_SO_N=str(proc["n"]),
+                                  C18_SO_RES="1" if proc["res"] else "0", C18_SO_EXTRA="1" if proc["extra"] else "0",
+                                  C18_SO_NOISE=proc["noise"], C18_SO_LOG=str(proc_log))
                 if mode == "real":
                     from rtflite.convert import LibreOfficeConverter
                     kwargs["converter"] = LibreOfficeConverter(executable_path=str(exe))
@@ -611,15 +686,21 @@ def run_export(case: dict) -> dict:
         rtf_bytes = tr.rtf_return.encode("utf-8") if isinstance(tr.rtf_return, str) else None
         conv_failed = bool(stub and stub.failed) or tr.failed["convert"] or tr.failed["resolve"]
         ext = EXT[fn]
+        # conversion runs of the fake process, as the process itself logged them (independent of what the
+        # library made of the run): a run that exits non-zero / leaves no <stem>.<fmt> is a failed conversion
+        proc_runs = 0
+        if proc is not None and proc_log.exists():
+            proc_runs = proc_log.read_text().count("convert")
+        if proc is not None and proc_runs and proc_failed(proc):
+            conv_failed = True
+        proc_ok = proc is not None and not proc_failed(proc)
         written = None
         if stub is not None:
             written = stub.written
-        elif mode in ("real", "path") and conv["beh"] in ("ok", "okres") and rtf_bytes is not None \
-                and "convert" in log.events:
-            written = ext.encode() + b"<" + rtf_bytes + b">"
+        elif proc_ok and rtf_bytes is not None and "convert" in log.events:
+            written = proc_document(proc, ext, rtf_bytes)
         has_res = (fn == "html" and "convert" in log.events and
-                   ((stub is not None and stub.beh == "okRes") or
-                    (mode in ("real", "path") and conv["beh"] == "okres")))
+                   ((stub is not None and stub.beh == "okRes") or (proc_ok and proc["res"])))
         # the name of the file the converter actually produced: the resource folder is its companion
         out_seen = stub.out_name if stub is not None else tr.conv_out_name
         if stub is not None and stub.res_name is not None and stub.res_name != (out_seen or "") + "_files":
@@ -647,6 +728,7 @@ def run_export(case: dict) -> dict:
             conv_out_name=out_seen,
             res_name=((out_seen + "_files") if (has_res and out_seen) else None),
             form=form, arg=os.fspath(arg),
+            proc=(dict(proc, runs=proc_runs) if proc is not None else None),
         )
     finally:
         os.chdir(saved_cwd)
